@@ -1,6 +1,7 @@
 #!/bin/bash
-# tools/seedrun.sh [IDs...]  run every independently seeded change against the check of the property it breaks
+# tools/seedrun.sh [dirs...]  run every independently seeded change (seeded/<ID>[-rN]) against the check of the property it breaks
 ids=${@:-$(ls /verif/seeded)}
-for id in $ids; do
-  SKIPTESTS=1 /verif/tools/mutant.sh /verif/seeded/$id/patch.diff $id 2>&1 | grep -E "CAUGHT|MISSED|ERROR" | cut -c1-260 | sed "s/^/[$id] /"
+for d in $ids; do
+  id=${d%%-*}
+  SKIPTESTS=1 /verif/tools/mutant.sh /verif/seeded/$d/patch.diff $id 2>&1 | grep -E "CAUGHT|MISSED|ERROR" | cut -c1-260 | sed "s/^/[$d] /"
 done
